@@ -70,7 +70,7 @@ CHECKS = {
     "C04": dict(
         pkg="c04", level="exploration",
         rule=("each case = a generated start state (0..6 setup ops) of one subject (mem, keyvalue/plain, keyvalue over a store that has gone offline -- invalid names must be refused before the store is asked --, mount with nested mounts, Sub(mem), Sub(mount), cache, tar -- healthy, over an archive cut inside its last entry, and with a cancelled context (UnarchiveErr set) --, os.FS under a Sub root) and one probe: "
-              "a helper (mkdir, mkdirall, openfile[any flags], create, writefile, remove, removeall, chmod, chtimes, chown, stat, lstat, lstatorstat, open, readdir, readfile, sub; rename/symlink with the name in either position) "
+              "a helper (mkdir, mkdirall, openfile[any flags], create, writefile, remove, removeall, chmod, chtimes, chown, chown with -1/-1, stat, lstat, lstatorstat, open, readdir, readfile, sub; rename/symlink with the name in either position) "
               "called with a name that is (60%) a valid path with one defect applied (empty, rooted, trailing slash, empty element, '.' or '..' element, invalid UTF-8, escape towards the sentinel; biased to mount points), "
               "(20%) a fuzzed string over {a b / . \\ : e-acute space}, (20%) a valid odd name (backslash, colon, leading dots, non-ASCII). Validity oracle = io/fs.ValidPath. Invalid: error must match ErrInvalid "
               "(or ErrNotImplemented if the helper is unsupported there for valid names too) and the snapshots of every constituent FS, the os directory and its sentinel sibling must be unchanged. Valid: never EINVAL for "
